@@ -10,6 +10,7 @@ import (
 	"strconv"
 	"strings"
 	"sync/atomic"
+	"time"
 
 	"verifharness/internal/dec"
 	"verifharness/internal/ev"
@@ -1018,14 +1019,24 @@ func c02(run *ev.Run, tier string) {
 		entry := func(ver, note string) string {
 			return "- semver: \"" + ver + "\"\n  date: 2021-03-04T05:06:07Z\n  packager: \"P <p@example.com>\"\n  changes:\n    - note: \"" + note + "\"\n"
 		}
-		for _, f := range []string{"rpm", "deb"} {
-			_ = os.WriteFile(chg, []byte(entry("1.0.0", "first-entry-only")), 0o644)
+		for _, f := range []string{"rpm", "deb", "rpm:same-length-same-second", "deb:same-length-same-second"} {
+			sameShape := strings.Contains(f, ":")
+			f = strings.SplitN(f, ":", 2)[0]
+			stamp := time.Unix(1611111111, 0)
+			_ = os.WriteFile(chg, []byte(entry("1.0.0", "first-entry-only-----------")+entry("0.9.0", "older")), 0o644)
+			_ = os.Chtimes(chg, stamp, stamp)
 			s := base()
 			s.Changelog = chg
 			first := buildDecode(s, f, "changelog before rewrite")
-			_ = os.WriteFile(chg, []byte(entry("1.1.0", "added-after-the-first-build")+entry("1.0.0", "first-entry-only")), 0o644)
+			if sameShape {
+				// same byte length, same modification time: only the content differs
+				_ = os.WriteFile(chg, []byte(entry("1.0.0", "added-after-the-first-build")+entry("0.9.0", "older")), 0o644)
+				_ = os.Chtimes(chg, stamp, stamp)
+			} else {
+				_ = os.WriteFile(chg, []byte(entry("1.1.0", "added-after-the-first-build")+entry("1.0.0", "first-entry-only")), 0o644)
+			}
 			second := buildDecode(s, f, "changelog after rewrite")
-			run.Case("changelog-rewritten-in-place|"+f, true)
+			run.Case("changelog-rewritten-in-place|"+f+fmt.Sprint("|same-shape=", sameShape), true)
 			if first == nil || second == nil {
 				continue
 			}
@@ -1040,6 +1051,35 @@ func c02(run *ev.Run, tier string) {
 			atomic.AddInt64(&cmps, 1)
 			if !strings.Contains(text, "added-after-the-first-build") {
 				run.Violate("C02/"+f+"/changelog-stale-after-the-file-changed", map[string]any{"changelog_in_second_package": ev.Short(text, 300)})
+			}
+		}
+	}
+	// part 1e': changelog dates beyond 2038 fit rpm's unsigned 32 bit tag; an epoch
+	// written with a leading zero is a decimal number
+	{
+		chg := filepath.Join(dir, "late-changelog.yaml")
+		_ = os.WriteFile(chg, []byte("- semver: \"2.0.0\"\n  date: 2040-01-01T00:00:00Z\n  packager: \"P <p@example.com>\"\n  changes:\n    - note: \"late\"\n- semver: \"1.0.0\"\n  date: 2100-06-01T00:00:00Z\n  packager: \"P <p@example.com>\"\n  changes:\n    - note: \"later\"\n"), 0o644)
+		s := base()
+		s.Changelog = chg
+		if p := buildDecode(s, "rpm", "changelog dated after 2038"); p != nil {
+			run.Case("rpm-changelog-after-2038", true)
+			atomic.AddInt64(&cmps, 1)
+			got := p.Rpm.Hdr.IntList(dec.RpmTagChangelogTime)
+			want := []int64{time.Date(2040, 1, 1, 0, 0, 0, 0, time.UTC).Unix(), time.Date(2100, 6, 1, 0, 0, 0, 0, time.UTC).Unix()}
+			if len(got) != 2 || got[0] != want[0] || got[1] != want[1] {
+				run.Violate("C02/rpm/changelog-time", map[string]any{"got": got, "want": want})
+			}
+		}
+		for _, ep := range []string{"010", "08", "0012"} {
+			s := base()
+			s.Epoch = ep
+			n, _ := strconv.Atoi(ep)
+			if p := buildDecode(s, "archlinux", "epoch "+ep); p != nil {
+				run.Case("archlinux-epoch-with-leading-zero|"+ep, true)
+				atomic.AddInt64(&cmps, 1)
+				if got, _ := p.MetaGet("pkgver"); !strings.HasPrefix(got, fmt.Sprintf("%d:", n)) {
+					run.Violate("C02/archlinux/version/epoch-with-leading-zero", map[string]any{"epoch": ep, "pkgver": got, "want_prefix": fmt.Sprintf("%d:", n)})
+				}
 			}
 		}
 	}
